@@ -413,6 +413,10 @@ def _sugar_index(items):
             out.append(slice(None))
         elif it[0] == "e":
             out.append(Ellipsis)
+        elif it[0] == "none":
+            out.append(None)
+        elif it[0] == "sl":
+            out.append(slice(it[1], it[2], it[3]))
         elif it[0] in ("i", "n"):
             out.append(it[1])
         else:
@@ -423,7 +427,8 @@ def _sugar_index(items):
 def _py_sugar_index(items):
     parts = []
     for it in items:
-        parts.append("slice(None)" if it[0] == "s" else "Ellipsis" if it[0] == "e" else repr(it[1])
+        parts.append("slice(None)" if it[0] == "s" else "Ellipsis" if it[0] == "e" else "None" if it[0] == "none"
+                     else f"slice({it[1]}, {it[2]}, {it[3]})" if it[0] == "sl" else repr(it[1])
                      if it[0] in ("i", "n") else python_of(it[1]))
     return "(" + ", ".join(parts) + ",)"
 
